@@ -66,13 +66,19 @@ METHODS = [
       precond=DES_PRE),
     M("bsdicrypt", "crypt_bsdicrypt_rn", "_", ["crypt-des.c"], ["M_DES"], 11, sep=0, max_s=24),
     M("yescrypt", "crypt_yescrypt_rn", "$y$", ["crypt-yescrypt.c", "alg-yescrypt-common.c"],
-      ["M_YESCRYPT_KDF", "M_SHA256", "M_HMAC_SHA256"], 43, max_s=40),
+      ["M_YESCRYPT_KDF", "M_SHA256", "M_HMAC_SHA256"], 43, max_s=14, max_p=4),
     M("scrypt", "crypt_scrypt_rn", "$7$", ["crypt-scrypt.c", "crypt-yescrypt.c", "alg-yescrypt-common.c"],
-      ["M_YESCRYPT_KDF", "M_SHA256", "M_HMAC_SHA256"], 43, max_s=40),
+      ["M_YESCRYPT_KDF", "M_SHA256", "M_HMAC_SHA256"], 43, max_s=18, max_p=4),
     M("gost_yescrypt", "crypt_gost_yescrypt_rn", "$gy$",
       ["crypt-gost-yescrypt.c", "crypt-yescrypt.c", "alg-yescrypt-common.c"],
-      ["M_YESCRYPT_KDF", "M_SHA256", "M_HMAC_SHA256", "M_GOST"], 43, max_s=40),
+      ["M_YESCRYPT_KDF", "M_SHA256", "M_HMAC_SHA256", "M_GOST"], 43, max_s=14, max_p=4),
 ]
+BF_UNIT = ("crypt-bcrypt.c", ["__CPROVER_file_local_crypt_bcrypt_c_BF_crypt"], {"export_static": True})
+BF_PRE = ("__CPROVER_assume(in_slen >= 25);")     # prefix + cost + 22 salt characters at least
+for _n, _fn, _p in (("bcrypt", "crypt_bcrypt_rn", "$2b$"), ("bcrypt_a", "crypt_bcrypt_a_rn", "$2a$"),
+                    ("bcrypt_x", "crypt_bcrypt_x_rn", "$2x$"), ("bcrypt_y", "crypt_bcrypt_y_rn", "$2y$")):
+    METHODS.append(M(_n, _fn, _p, [BF_UNIT], ["M_BF_STUB"], 31, sep=0, max_s=28, precond=BF_PRE, max_p=8,
+                     extra_loops=[("^BF_set_key$", None, 20, False), ("BF_crypt$", None, 62, False)]))
 BY_NAME = {m.name: m for m in METHODS}
 
 DES_CH = ("static int des_ch(char c){return (c>='a'&&c<='z')||(c>='A'&&c<='Z')||(c>='0'&&c<='9')||c=='.'||c=='/';}")
@@ -101,6 +107,10 @@ def method_query(m, qname, harness="crypt_method.c", max_s=None, max_p=None, cap
     loops += m.extra_loops
     out_bound = len(m.prefix) + max_s + m.hash_len + 24
     loops += lib_loops(out_bound)
+    if "M_YESCRYPT_KDF" in m.mdefs:
+        defs.append("SCR_SIZE=%d" % (2048 if "M_GOST" in m.mdefs else 512))
+    if "M_BF_STUB" in m.mdefs:
+        extra_models = list(extra_models) + ["bf_stub.c"]
     q = Query(qname, harness, units=BASE_UNITS + m.units, models=["libc.c", model] + list(extra_models),
               defs=defs, unwind=unwind or max(max_p + 2, 20), loops=loops,
               timeout=timeout)
